@@ -89,7 +89,19 @@ func main() {
 	defer zh.CleanTmp()
 	curCtx = c
 	go watchdog(c)
-	f(c)
+	func() {
+		// a panic that escapes the code under test inside a step the check does not guard itself
+		defer func() {
+			if r := recover(); r != nil {
+				st := string(debug.Stack())
+				if len(st) > 12000 {
+					st = st[:12000]
+				}
+				c.Violation(fmt.Sprintf("PANIC escaping from the code under test: %v\n%s", r, st), false)
+			}
+		}()
+		f(c)
+	}()
 	curCtx = nil
 	reportRaces(c)
 	reportProof(c)
